@@ -162,8 +162,8 @@ def gen_case(rng, small=False):
     used_keys = set()
     for t in range(nthreads):
         ops = []
-        if t == 0:
-            # connection setup always requests values before user code can run (this also sets _ParamUpdater._useV2)
+        if t == 0 and rng.random() < 0.8:
+            # connection setup requests all values; a `connected` callback runs before that, so user requests may come first
             ops.append(['readall'] if rng.random() < 0.85 else ['read', rng.randrange(n)])
         for _ in range(rng.randint(1, 3 if small else 6)):
             r = rng.random()
@@ -384,8 +384,9 @@ def execute(case, rng=None):
                 sched.append(ev)
         else:
             budget = gen.get('budget', 90)
-            do(['I', 0])
-            sched.append(['I', 0])
+            if issuers[0].k < len(issuers[0].ops) and case['threads'][0][0][0] != 'set':
+                do(['I', 0])
+                sched.append(['I', 0])
             while len(steps) < budget:
                 en = enabled()
                 issuing = [e for e in en if e[0] == 'I']
@@ -802,6 +803,10 @@ def check_run(case, rec):
                 cb_calls.setdefault(o[1], []).append((si, delivered, o[2], o[3]))
     last = rec['steps'][-1]['snap'] if rec['steps'] else None
     drained = bool(last) and not last['queue'] and not last['hand'] and not last['lock'] and not last['out']
+    if last and last['lock'] and not last['out']:
+        fail('updater_lock_never_released', 'the reply to request %s was delivered (link empty) but the updater still holds its '
+             'lock with pattern %r: nothing will ever be sent again' % (outstanding, list(last['pat'] or b'')),
+             observed={'queue': len(last['queue']), 'pattern': list(last['pat'] or b'')})
     if all_fired > 1:
         fail('all_updated_fired_twice', 'all_updated must fire once')
     if drained:
@@ -925,6 +930,8 @@ def replay(payload, ctx):
     for f in fs:
         if want is None or f['class'] == want:
             return f
+    # The schedule may stop being enabled on a different tree: the case was then run as far as it goes and judged by
+    # the oracle above; not reproducing the recorded failure means the replay passes (the divergence is only a note).
     if rec['problems']:
-        return {'class': 'replay_diverged', 'detail': rec['problems'][0]}
+        ctx.notes.append('replay diverged from the recorded schedule: %r' % (rec['problems'][0],))
     return None
